@@ -1469,10 +1469,13 @@ class BinaryOperator(SymbolicExpression, ABC):
                 cache.clear()
 
     def yield_final_output_from_cache(self, variables_sources, cache: Optional[IndexedCache] = None,
-                                      suppress_true_duplicates: bool = False) -> Iterable[Dict[int, HashedValue]]:
+                                      suppress_true_duplicates: bool = False,
+                                      yield_when_false: bool = True) -> Iterable[Dict[int, HashedValue]]:
         """
         :param suppress_true_duplicates: Whether the operator suppresses duplicates of true rows when it evaluates, then
          it has to do the same when it replays them from the cache, otherwise a re-evaluation yields more rows.
+        :param yield_when_false: Whether the evaluation that is answered from the cache asked for false rows. The cache
+         also holds the false rows of an evaluation that did (the same expression as the left side of an or_).
         """
         cache = self._cache_ if cache is None else cache
         entered = False
@@ -1480,6 +1483,8 @@ class BinaryOperator(SymbolicExpression, ABC):
             entered = True
             self._is_false_ = is_false
             cache_match_count.values[self._node_.name] += 1
+            if is_false and not yield_when_false:
+                continue
             if (is_false or suppress_true_duplicates) and self._is_duplicate_output_(output):
                 continue
             yield output
@@ -1726,7 +1731,7 @@ class Comparator(BinaryOperator):
 
         if self._caching_enabled_():
             if self._cache_.check(sources):
-                yield from self.yield_final_output_from_cache(sources)
+                yield from self.yield_final_output_from_cache(sources, yield_when_false=yield_when_false)
                 return
 
         first_operand, second_operand = self.get_first_second_operands(sources)
@@ -1819,7 +1824,8 @@ class AND(LogicalOperator):
                     continue
 
                 if self._caching_enabled_() and self.right_cache.check(left_value):
-                    yield from self.yield_final_output_from_cache(left_value, self.right_cache)
+                    yield from self.yield_final_output_from_cache(left_value, self.right_cache,
+                                                                  yield_when_false=yield_when_false)
                     continue
 
                 # constrain right values by available sources
@@ -1892,7 +1898,7 @@ class Union(OR):
         self._yield_when_false_ = yield_when_false
 
         if self._caching_enabled_() and self._cache_.check(sources):
-            yield from self.yield_final_output_from_cache(sources)
+            yield from self.yield_final_output_from_cache(sources, yield_when_false=yield_when_false)
             return
 
         # which side produced the current row is decided anew by every evaluation (an earlier one may have been abandoned
@@ -1969,7 +1975,8 @@ class ElseIf(OR):
                 if self.left._is_false_:
                     if self._caching_enabled_() and self.right_cache.check(left_value):
                         yield from self.yield_final_output_from_cache(left_value, self.right_cache,
-                                                                      suppress_true_duplicates=True)
+                                                                      suppress_true_duplicates=True,
+                                                                      yield_when_false=yield_when_false)
                         continue
                     right_prev = self.right._eval_parent_
                     self.right._eval_parent_ = self
